@@ -19,7 +19,7 @@ func Generate(l syntax.LangVariant, n uint64) string {
 	if g.r.IntN(6) == 0 {
 		sb.WriteString(g.pick("#!/bin/sh\n", "#!/usr/bin/env bash\n", "#!/bin/bash -e\n", "# not a shebang\n", "#!not\n"))
 	}
-	sb.WriteString(g.stmts(1+int(n/8)%3, 1+g.r.IntN(4), "\n"))
+	sb.WriteString(g.stmts(1+int(n/8)%2, 1+g.r.IntN(4), "\n"))
 	if len(g.hdocs) > 0 {
 		sb.WriteString(g.nl())
 	} else if g.r.IntN(2) == 0 {
@@ -44,7 +44,7 @@ func (g *gen) chance(n int) bool       { return g.r.IntN(n) == 0 }
 
 func (g *gen) comment() string {
 	g.ncom++
-	return "#" + g.pick("", " ", "  ") + "k" + strconv.Itoa(g.ncom) + g.pick("", " ", " x y", "\t", " 'q", " $(", " \\")
+	return "#" + g.pick("", " ", "  ") + "k" + strconv.Itoa(g.ncom) + g.pick("", " ", " x y", "\t", " 'q", " ;|&")
 }
 
 // sep returns a statement separator; flushes pending heredocs when it contains a newline.
